@@ -35,3 +35,64 @@ Proof.
   intros a b Hl Ha Hb Ca Hne. destruct (fr_canonical b) eqn:Cb; [right|left; reflexivity].
   intros E. apply Hne. apply canonical_unique_lemma; auto.
 Qed.
+
+(* ---------- compressed G1 points: the flag byte ---------- *)
+Definition byte_shape (b : N) : bool :=
+  N.eqb b ((if N.testbit b 7 then 128 else 0) + (if N.testbit b 6 then 64 else 0) + (if N.testbit b 5 then 32 else 0)
+           + N.land b 31).
+
+Lemma byte_shape_all : forallb byte_shape (map N.of_nat (seq 0 256)) = true.
+Proof. vm_compute. reflexivity. Qed.
+
+Lemma byte_shape_lemma : forall b, b < 256 ->
+  b = (if N.testbit b 7 then 128 else 0) + (if N.testbit b 6 then 64 else 0) + (if N.testbit b 5 then 32 else 0)
+      + N.land b 31.
+Proof.
+  intros b Hb. pose proof byte_shape_all as A. rewrite forallb_forall in A.
+  assert (Hin : In b (map N.of_nat (seq 0 256))).
+  { apply in_map_iff. exists (N.to_nat b). split; [apply N2Nat.id|]. apply in_seq. lia. }
+  specialize (A b Hin). unfold byte_shape in A. apply N.eqb_eq in A. exact A.
+Qed.
+
+Lemma all_zero_eq : forall a b : list N, length a = length b ->
+  forallb (N.eqb 0) a = true -> forallb (N.eqb 0) b = true -> a = b.
+Proof.
+  induction a as [|x r IH]; intros [|y s] Hl Ha Hb; try discriminate; [reflexivity|].
+  cbn [forallb] in Ha, Hb. apply andb_true_iff in Ha. apply andb_true_iff in Hb. destruct Ha as [Hx Hr]. destruct Hb as [Hy Hs].
+  apply N.eqb_eq in Hx. apply N.eqb_eq in Hy. subst. f_equal. apply IH; auto.
+Qed.
+
+(* two byte strings the flag/range checks accept and that decode to the same (infinity | x, sign) are equal *)
+Lemma g1_flags_injective_lemma : forall a b, bytes_ok a -> bytes_ok b ->
+  g1_flags_decode a <> GErr -> g1_flags_decode a = g1_flags_decode b -> a = b.
+Proof.
+  intros a b Ha Hb Hne E. unfold g1_flags_decode in *.
+  destruct a as [|a0 ra]; [contradiction|]. destruct b as [|b0 rb]; [exact (False_ind _ (Hne E))|].
+  destruct (Nat.eqb_spec (length (a0 :: ra)) 48) as [La|La]; cbn [negb] in *; [|contradiction].
+  destruct (Nat.eqb_spec (length (b0 :: rb)) 48) as [Lb|Lb]; cbn [negb] in *; [|exact (False_ind _ (Hne E))].
+  inversion_clear Ha as [|? ? Ha0 Hra]. inversion_clear Hb as [|? ? Hb0 Hrb].
+  assert (Hlr : length ra = length rb) by (cbn in La, Lb; lia).
+  destruct (N.testbit a0 7) eqn:A7; cbn [negb] in *; [|contradiction].
+  destruct (N.testbit b0 7) eqn:B7; cbn [negb] in *; [|exact (False_ind _ (Hne E))].
+  destruct (N.testbit a0 6) eqn:A6.
+  - destruct (N.eqb a0 192 && forallb (N.eqb 0) ra) eqn:Az; [|contradiction].
+    apply andb_true_iff in Az. destruct Az as [Az1 Az2]. apply N.eqb_eq in Az1.
+    destruct (N.testbit b0 6) eqn:B6.
+    + destruct (N.eqb b0 192 && forallb (N.eqb 0) rb) eqn:Bz; [|discriminate].
+      apply andb_true_iff in Bz. destruct Bz as [Bz1 Bz2]. apply N.eqb_eq in Bz1. subst.
+      f_equal. apply all_zero_eq; auto.
+    + destruct (be_value (N.land b0 31 :: rb) <? field_modulus); discriminate.
+  - destruct (be_value (N.land a0 31 :: ra) <? field_modulus) eqn:Ax; [|contradiction].
+    destruct (N.testbit b0 6) eqn:B6.
+    + destruct (N.eqb b0 192 && forallb (N.eqb 0) rb); discriminate.
+    + destruct (be_value (N.land b0 31 :: rb) <? field_modulus) eqn:Bx; [|discriminate].
+      injection E as Ex Es.
+      assert (Hla : N.land a0 31 < 256).
+      { pose proof (byte_shape_lemma a0 Ha0). destruct (N.testbit a0 5); rewrite A7, A6 in *; lia. }
+      assert (Hlb : N.land b0 31 < 256).
+      { pose proof (byte_shape_lemma b0 Hb0). destruct (N.testbit b0 5); rewrite B7, B6 in *; lia. }
+      assert (Hcons : N.land a0 31 :: ra = N.land b0 31 :: rb).
+      { apply be_value_injective_lemma; [cbn; lia| constructor; auto | constructor; auto | exact Ex]. }
+      injection Hcons as H31 Hr. subst rb. f_equal.
+      rewrite (byte_shape_lemma a0 Ha0), (byte_shape_lemma b0 Hb0), A7, A6, B7, B6, Es, H31. reflexivity.
+Qed.
